@@ -140,20 +140,15 @@ class WorkingHours:
                 return False
 
         weekday = dt.weekday()
-
-        # Check if this day has working hours defined
-        if weekday not in self._hours or not self._hours[weekday]:
-            # No working hours defined for this day = not working
-            return False
-
         slot_minutes = dt.hour * 60 + dt.minute
 
         # Use Cython-optimized version if available
         if _USE_CYTHON:
             return bool(check_working_hours_fast(slot_minutes, weekday, self._hours, True))
 
-        # Check if slot falls within any working interval
-        for (start_h, start_m), (end_h, end_m) in self._hours[weekday]:
+        # Check if slot falls within any working interval. A day without hours of its
+        # own can still carry the morning part of the previous day's cross-midnight shift.
+        for (start_h, start_m), (end_h, end_m) in self._hours.get(weekday) or []:
             start_minutes = start_h * 60 + start_m
             end_minutes = end_h * 60 + end_m
 
